@@ -127,7 +127,7 @@ Apply(f, inj) ==
 AllInj == { [obj |-> o, what |-> w, d |-> d] :
               o \in Ents, w \in DimInj \cup ArrInj \cup TagInj \cup MTagInj \cup EntInj, d \in 0..2 }
 
-Bases == { Base(m1, m2, ref) : m1 \in DimMixes1, m2 \in DimMixes2, ref \in Refs }
+Bases == { [file |-> Base(m1, m2, ref), m1 |-> m1, m2 |-> m2, ref |-> ref] : m1 \in DimMixes1, m2 \in DimMixes2, ref \in Refs }
 
 \* ---------------------------------------------------------------- what validation must report
 Atomic(u) == u \in { "s", "V" }
@@ -192,12 +192,15 @@ Expected(f) ==
 VARIABLES cfg, q, r
 vars == << cfg, q, r >>
 
-Init == cfg \in { [file |-> b, inj |-> << >>] : b \in Bases } /\ q = Nil /\ r = Nil
+\* (the harness builds the well-formed base first and then applies the injections to the open file, one after
+\* the other, validating after each: base names the descriptor kinds and the referenced array)
+Init == cfg \in { [file |-> b.file, inj |-> << >>, base |-> [m1 |-> b.m1, m2 |-> b.m2, ref |-> b.ref]] : b \in Bases }
+        /\ q = Nil /\ r = Nil
 
 Distinct(injs, i) == \A k \in 1..Len(injs) : << injs[k].obj, injs[k].d, injs[k].what >> # << i.obj, i.d, i.what >>
 Inject == /\ q.kind = "nil" /\ Len(cfg.inj) < MaxInject
           /\ \E i \in AllInj : /\ Applies(cfg.file, i) /\ Distinct(cfg.inj, i)
-                               /\ cfg' = [file |-> Apply(cfg.file, i), inj |-> Append(cfg.inj, i)]
+                               /\ cfg' = [cfg EXCEPT !.file = Apply(cfg.file, i), !.inj = Append(cfg.inj, i)]
           /\ UNCHANGED << q, r >>
 Validate == /\ q.kind = "nil"
             /\ q' = [kind |-> "validate"] /\ r' = Expected(cfg.file)
